@@ -117,6 +117,12 @@ func (c *C14) variants() map[string][]c14Variant {
 	m1 := []*mhubtypes.ExternalSigner{{Power: 100, ExternalAddress: r1}, {Power: 50, ExternalAddress: r2}}
 	m2 := []*mhubtypes.ExternalSigner{{Power: 100, ExternalAddress: r1}, {Power: 51, ExternalAddress: r2}}
 	m3 := []*mhubtypes.ExternalSigner{{Power: 100, ExternalAddress: r1}}
+	r3 := hub.HexAddr("r3")
+	// lists with repeated members (admissible: Validate checks each member only) and a reordering
+	m4 := []*mhubtypes.ExternalSigner{{Power: 100, ExternalAddress: r1}, {Power: 50, ExternalAddress: r2}, {Power: 50, ExternalAddress: r2}}
+	m5 := []*mhubtypes.ExternalSigner{{Power: 100, ExternalAddress: r1}, {Power: 50, ExternalAddress: r3}, {Power: 50, ExternalAddress: r3}}
+	m6 := []*mhubtypes.ExternalSigner{{Power: 100, ExternalAddress: r1}, {Power: 100, ExternalAddress: r1}, {Power: 100, ExternalAddress: r1}}
+	m7 := []*mhubtypes.ExternalSigner{{Power: 50, ExternalAddress: r2}, {Power: 100, ExternalAddress: r1}}
 	sse := func(mod func(e *mhubtypes.SignerSetTxExecutedEvent)) *mhubtypes.SignerSetTxExecutedEvent {
 		e := &mhubtypes.SignerSetTxExecutedEvent{EventNonce: 7, SignerSetTxNonce: 1, ExternalHeight: 100, Members: m1, TxHash: "0xaa"}
 		mod(e)
@@ -129,6 +135,10 @@ func (c *C14) variants() map[string][]c14Variant {
 		{"height", "ethereum", sse(func(e *mhubtypes.SignerSetTxExecutedEvent) { e.ExternalHeight = 101 })},
 		{"members(power)", "ethereum", sse(func(e *mhubtypes.SignerSetTxExecutedEvent) { e.Members = m2 })},
 		{"members(count)", "ethereum", sse(func(e *mhubtypes.SignerSetTxExecutedEvent) { e.Members = m3 })},
+		{"members(one repeated)", "ethereum", sse(func(e *mhubtypes.SignerSetTxExecutedEvent) { e.Members = m4 })},
+		{"members(another repeated)", "ethereum", sse(func(e *mhubtypes.SignerSetTxExecutedEvent) { e.Members = m5 })},
+		{"members(same thrice)", "ethereum", sse(func(e *mhubtypes.SignerSetTxExecutedEvent) { e.Members = m6 })},
+		{"members(reordered)", "ethereum", sse(func(e *mhubtypes.SignerSetTxExecutedEvent) { e.Members = m7 })},
 		{"txhash", "ethereum", sse(func(e *mhubtypes.SignerSetTxExecutedEvent) { e.TxHash = "0xbb" })},
 	}
 	return out
@@ -147,6 +157,88 @@ func (c *C14) crossType() (a, b c14Variant) {
 	s := &mhubtypes.SendToHubEvent{EventNonce: 7, ExternalCoinId: "1", Amount: sdk.NewIntFromBigInt(new(big.Int).SetBytes(amtS)), Sender: sender, CosmosReceiver: rcv.String(), ExternalHeight: 100, TxHash: "0xaa"}
 	t := &mhubtypes.TransferToChainEvent{EventNonce: 7, ExternalCoinId: "1", Amount: sdk.NewIntFromBigInt(new(big.Int).SetBytes(amtT)), Fee: sdk.NewInt(0), Sender: hub.HexAddr("s1"), ReceiverChainId: chain, ExternalReceiver: recv, ExternalHeight: 100, TxHash: "0xaa"}
 	return c14Variant{"", "minter", s}, c14Variant{"type(shifted fields)", "minter", t}
+}
+
+// frameWrap builds, for a hypothetical length frame of k bytes (big or little endian, i.e. lengths taken
+// modulo 2^(8k)), two field tuples (a, mid..., c1) and (a2, mid2..., c2) whose framed concatenations are
+// byte-identical although every field differs: a2 = a ++ [frames and contents of mid, frame of c1] ++ pad has
+// length |a| + 2^(8k), and c1 = pad ++ [framed mid2, framed c2]. With the module's 8-byte frames the two
+// preimages differ; a narrower frame that a long admissible field can overflow makes them collide.
+func frameWrap(k int, le bool, a []byte, mid, mid2 [][]byte, c2 []byte) (a2, c1 []byte) {
+	mod := 1 << (8 * uint(k))
+	fr := func(n int) []byte {
+		out := make([]byte, k)
+		v := n % mod
+		for i := 0; i < k; i++ {
+			if le {
+				out[i] = byte(v >> (8 * uint(i)))
+			} else {
+				out[k-1-i] = byte(v >> (8 * uint(i)))
+			}
+		}
+		return out
+	}
+	var tail []byte // framed mid2 and c2
+	for _, f := range mid2 {
+		tail = append(append(tail, fr(len(f))...), f...)
+	}
+	tail = append(append(tail, fr(len(c2))...), c2...)
+	headLen := k // frame of c1
+	for _, f := range mid {
+		headLen += k + len(f)
+	}
+	padLen := mod - headLen
+	if padLen < 0 {
+		panic("frameWrap: fields too long for this frame width")
+	}
+	pad := bytes.Repeat([]byte("p"), padLen)
+	c1 = append(append([]byte{}, pad...), tail...)
+	var head []byte
+	for _, f := range mid {
+		head = append(append(head, fr(len(f))...), f...)
+	}
+	head = append(head, fr(len(c1))...)
+	a2 = append(append(append([]byte{}, a...), head...), pad...)
+	return a2, c1
+}
+
+func be8(v uint64) []byte { return sdk.Uint64ToBigEndian(v) }
+
+// wrapPairs: frame-overflow pairs for the event types that have two free-form fields.
+func (c *C14) wrapPairs() [][3]interface{} {
+	var out [][3]interface{}
+	s1 := hub.HexAddr("s1")
+	r1 := hub.HexAddr("r1")
+	for _, k := range []int{1, 2} {
+		for _, le := range []bool{false, true} {
+			if k == 1 && le {
+				continue
+			}
+			name := fmt.Sprintf("%d-byte %s frame overflow", k, map[bool]string{false: "big-endian", true: "little-endian"}[le])
+			// TransferToChainEvent: ... ReceiverChainId, ExternalHeight, TxHash
+			{
+				a2, c1 := frameWrap(k, le, []byte("ethereum"), [][]byte{be8(100)}, [][]byte{be8(101)}, []byte("0xbb"))
+				e1 := &mhubtypes.TransferToChainEvent{EventNonce: 7, ExternalCoinId: "1", Amount: sdk.NewInt(0x3201 * 1000), Fee: sdk.NewInt(10), Sender: s1[2:], ReceiverChainId: "ethereum", ExternalReceiver: r1, ExternalHeight: 100, TxHash: string(c1)}
+				e2 := &mhubtypes.TransferToChainEvent{EventNonce: 7, ExternalCoinId: "1", Amount: sdk.NewInt(0x3201 * 1000), Fee: sdk.NewInt(10), Sender: s1[2:], ReceiverChainId: string(a2), ExternalReceiver: r1, ExternalHeight: 101, TxHash: "0xbb"}
+				out = append(out, [3]interface{}{"TransferToChainEvent", c14Variant{"long txhash", "minter", e1}, c14Variant{"destination+height+txhash(" + name + ")", "minter", e2}})
+			}
+			// BatchExecutedEvent: ... TxHash, FeePaid, FeePayer
+			{
+				a2, c1 := frameWrap(k, le, []byte("0xaa"), [][]byte{[]byte("1000000")}, [][]byte{[]byte("5000000")}, []byte(r1))
+				e1 := &mhubtypes.BatchExecutedEvent{ExternalCoinId: EthHub, EventNonce: 7, ExternalHeight: 100, BatchNonce: 1, TxHash: "0xaa", FeePaid: sdk.NewInt(1_000_000), FeePayer: string(c1)}
+				e2 := &mhubtypes.BatchExecutedEvent{ExternalCoinId: EthHub, EventNonce: 7, ExternalHeight: 100, BatchNonce: 1, TxHash: string(a2), FeePaid: sdk.NewInt(5_000_000), FeePayer: r1}
+				out = append(out, [3]interface{}{"BatchExecutedEvent", c14Variant{"long feepayer", "ethereum", e1}, c14Variant{"txhash+feepaid+feepayer(" + name + ")", "ethereum", e2}})
+			}
+			// ContractCallExecutedEvent: EventNonce, InvalidationScope, InvalidationNonce, ExternalHeight, TxHash
+			{
+				a2, c1 := frameWrap(k, le, []byte("ab"), [][]byte{be8(1), be8(100)}, [][]byte{be8(2), be8(101)}, []byte("0xbb"))
+				e1 := &mhubtypes.ContractCallExecutedEvent{EventNonce: 7, InvalidationScope: []byte("ab"), InvalidationNonce: 1, ExternalHeight: 100, TxHash: string(c1)}
+				e2 := &mhubtypes.ContractCallExecutedEvent{EventNonce: 7, InvalidationScope: a2, InvalidationNonce: 2, ExternalHeight: 101, TxHash: "0xbb"}
+				out = append(out, [3]interface{}{"ContractCallExecutedEvent", c14Variant{"long txhash", "ethereum", e1}, c14Variant{"scope+invalidationnonce+height+txhash(" + name + ")", "ethereum", e2}})
+			}
+		}
+	}
+	return out
 }
 
 type C14 struct {
@@ -253,6 +345,9 @@ func (c *C14) run() c14Result {
 	}
 	a, b := c.crossType()
 	check("SendToHubEvent/TransferToChainEvent", a, b)
+	for _, p := range c.wrapPairs() {
+		check(p[0].(string), p[1].(c14Variant), p[2].(c14Variant))
+	}
 	res.distinctSigs = len(res.sigs)
 	return res
 }
@@ -281,7 +376,7 @@ func init() {
 			}
 			out.Evidence = map[string]interface{}{"level": "exploration", "coverage": map[string]interface{}{
 				"evaluations": r.pairs, "distinct_nontrivial": r.distinctSigs,
-				"rule":        "all unordered pairs of per-field variants of each of the 5 event types (base + 5..13 alternatives incl. 0x-prefixed senders, Minter ids 1/12 with amounts whose big-endian bytes start with 0x32) plus one constructed cross-type pair; a pair is distinct by (type, set of differing fields); every pair is hashed with the real Hash(); pairs with equal hash are applied with the real ExternalEventProcessor.Handle to a pre-state with pending batches and compared by store digest",
+				"rule":        "all unordered pairs of per-field variants of each of the 5 event types (base + 5..13 alternatives incl. 0x-prefixed senders, Minter ids 1/12 with amounts whose big-endian bytes start with 0x32) plus one constructed cross-type pair and, for the three event types with two free-form fields, constructed frame-overflow pairs for 1- and 2-byte length frames (a field of length n and one of length n+2^(8k) frame identically); a pair is distinct by (type, set of differing fields); every pair is hashed with the real Hash(); pairs with equal hash are applied with the real ExternalEventProcessor.Handle to a pre-state with pending batches and compared by store digest",
 				"samples":     r.samples, "equal_hash_pairs": r.equalHash, "exhaustive": true,
 			}, "assumptions": []string{"effect = store digest + error after Handle on one representative pre-state (prices present, two pending ethereum batches, funded users); module hooks are nil as in app.go"}}
 			out.Summary = fmt.Sprintf("pairs=%d equal_hash=%d violations=%d known=%d (%s)", r.pairs, r.equalHash, len(out.Violations), len(out.Known), time.Since(start).Round(time.Millisecond))
